@@ -20,6 +20,15 @@ def msgId (src dest : Nat) (s e : Int) : String := s!"{src}-{dest}-{s}-{e}"
 /-- EVM RetryV1 / Substrate retry message id -/
 def retryMsgId (src dest : Nat) (s e : Int) : String := s!"retry-{src}-{dest}-{s}-{e}"
 
+/-- EVM RetryV2 message id: `fmt.Sprintf("retry-%d-%d", e.SourceDomainID, e.DestinationDomainID)` — event data only -/
+def retryV2MsgId (src dest : Nat) : String := s!"retry-{src}-{dest}"
+
+/-- Substrate executor: the signing session id IS the delivery's message id (`NewSigning(msg, messageID, messageID, …)`) -/
+def subSessionId (m : String) : String := m
+
+/-- BTC executor: the signing session of input `i` is the hex of that input's taproot sighash -/
+def btcInputSessionId (sighashHex : String) : String := sighashHex
+
 /-- BTC deposit message id: `fmt.Sprintf("%d-%d-%d", sourceID, destDomainID, blockNumber)` -/
 def btcMsgId (src dest : Nat) (b : Int) : String := s!"{src}-{dest}-{b}"
 
